@@ -588,8 +588,8 @@ pub fn check(ctx: &mut Ctx, which: Which) -> i32 {
     }
     let ops = ctx.by(q_ops, t_ops);
     let (nq, nt) = match which {
-        Which::C14 => (1500u32, 20_000u32),
-        Which::C15 => (16u32, 40u32),
+        Which::C14 => (1500u32, 60_000u32),
+        Which::C15 => (16u32, 600u32),
     };
     let n = ctx.by(nq, nt);
     for strict in [true, false] {
